@@ -326,12 +326,20 @@ def SimEnv : Option Val → Option Val → Prop
 
 theorem bit_cmb (cmb : Cmb) {a a' b b' : Val} (ha : bit a = bit a') (hb : bit b = bit b') :
     bit (cmb.app a b) = bit (cmb.app a' b') := by
+  have hl : ∀ l : List Val, bit (Val.ofList l) = false := fun l => by cases l <;> rfl
   cases cmb
-  · rfl
-  · exact ha
-  · exact hb
+  case tuple => rfl
+  case left => exact ha
+  case right => exact hb
+  case vecCat => simp only [Cmb.app, hl]
+  case optStrCat => simp only [Cmb.app]; split <;> split <;> rfl
+  case charOpt => simp only [Cmb.app]; split <;> split <;> rfl
+  all_goals rfl
 
-theorem bit_mapFn (f : MapFn) (v w : Val) : bit (f.app v) = bit (f.app w) := by cases f <;> rfl
+theorem bit_mapFn (f : MapFn) (v w : Val) : bit (f.app v) = bit (f.app w) := by
+  cases f
+  case tokChar => simp only [MapFn.app]; split <;> split <;> rfl
+  all_goals rfl
 
 theorem bit_ctxFn (f : CtxFn) {v w : Val} (h : bit v = bit w) : bit (f.app v) = bit (f.app w) := by
   cases f
